@@ -93,8 +93,9 @@ class PathEnumerator:
     '''
 
     def __init__(self, fn, on_stmt=None, fallible=None, eval_test=None, unroll=1, max_states=20000,
-                 exc_parents=None, assert_forks=False, record_conds=True, noreturn=None):
+                 exc_parents=None, assert_forks=False, record_conds=True, noreturn=None, emit_truncated=False):
         self.fn = fn
+        self.emit_truncated = emit_truncated   # loops without an exit (while True + yield): hand out the prefix cut at the iteration budget, end 'truncated'
         self.on_stmt = on_stmt or (lambda s, st: ())
         self._try_stack = []
         # without a rule-specific oracle, any statement in a try body may raise what the handlers name
@@ -138,6 +139,8 @@ class PathEnumerator:
                 res.append(Path(st.events, 'return', flags=st.flags))
             elif kind == 'exit':
                 res.append(Path(st.events, 'exit', flags=st.flags))
+            elif kind == 'truncated':
+                res.append(Path(st.events, 'truncated', flags=st.flags))
             elif kind == 'raise':
                 res.append(Path(st.events, 'raise', st.exc, flags=st.flags))
             elif kind in ('break', 'continue'):
@@ -445,6 +448,8 @@ class PathEnumerator:
                         outs.extend(self.block(s.orelse, b) if s.orelse else [('next', b)])
                         continue
                     if it == self.unroll:
+                        if self.emit_truncated:
+                            outs.append(('truncated', b))
                         continue  # iteration budget exhausted: this prefix is covered by shorter paths
                     for kind, o in self.block(s.body, b.add(Event('loop-body', s, it))):
                         if kind in ('next', 'continue'):
